@@ -24,6 +24,20 @@
 (*                         stored sender (what later attempts hand over)  *)
 (*   "SwallowCopyError"    a body that cannot be read completely is       *)
 (*                         stored (truncated) and the message accepted    *)
+(*   "BodyFromSource"      the first attempt reads the buffer the source   *)
+(*                         handed to Body instead of the spooled copy      *)
+(*   "EnvelopeFromHeader"  a reloaded message gets envelope information    *)
+(*                         (the TLS-Required override) re-derived from its *)
+(*                         stored header                                   *)
+(* The source's body buffer is only valid until the transaction is over:  *)
+(* the environment (the harness) overwrites / removes it as soon as Commit *)
+(* has returned, so a hand-over that still reads it sees "srcgone".  The   *)
+(* header shape "envlike" carries fields that spell envelope information   *)
+(* differently from the envelope (a second TLS-Required field saying No    *)
+(* below one that does not, Return-Path, Delivered-To, To/Cc/Bcc with      *)
+(* other addresses).  CrashRestart is an abrupt stop after acceptance and  *)
+(* before the first attempt: the in-memory copy is gone, the first         *)
+(* hand-over comes from the disk.                                          *)
 (* An attempt delivers a set D and fails a set P permanently (a failure   *)
 (* report is generated for P when P is not empty: the queue runs with a   *)
 (* bounce pipeline); the rest fails temporarily and stays pending.        *)
@@ -88,10 +102,13 @@ AcceptRefused ==
   /\ hist' = H([a |-> "AcceptRefused"])
   /\ UNCHANGED <<msg, mem, disk, pending, steps, restarts, obs>>
 
+\* what a reader of the source's buffer sees once the source is done with it
+SrcGone(m) == [m EXCEPT !.body = IF @ = "empty" THEN @ ELSE "srcgone"]
+
 Accept ==
   /\ phase = "new" /\ (msg.body # "faulty" \/ "SwallowCopyError" \in Devs)
   /\ LET m0 == IF "DropOverrideAtStart" \in Devs THEN [msg EXCEPT !.tlsov = FALSE] ELSE msg IN
-       /\ mem' = Rec(Cut(m0), Rcpts, "none")
+       /\ mem' = Rec(IF "BodyFromSource" \in Devs THEN SrcGone(Cut(m0)) ELSE Cut(m0), Rcpts, "none")
        /\ disk' = Rec(Stored(Cut(m0)), Rcpts, Conn(msg))
   /\ phase' = "queued"
   /\ obs' = ObsScan(ObsAccept(obs, msg, Rcpts), disk'.conn = "creds")
@@ -99,7 +116,8 @@ Accept ==
   /\ UNCHANGED <<msg, pending, steps, restarts>>
 
 Reloaded(d) ==
-  [d EXCEPT !.m.hdr = IF "TruncateHugeHeader" \in Devs /\ @ = "huge" THEN "truncated" ELSE @]
+  [d EXCEPT !.m.hdr = IF "TruncateHugeHeader" \in Devs /\ @ = "huge" THEN "truncated" ELSE @,
+            !.m.tlsov = IF "EnvelopeFromHeader" \in Devs /\ d.m.hdr = "envlike" THEN TRUE ELSE @]
 
 \* one attempt: delivers the set D of the pending recipients, fails the set P permanently (a failure
 \* report for P is handed to the bounce pipeline), the rest fails temporarily
@@ -127,6 +145,13 @@ Restart ==
   /\ hist' = H([a |-> "Restart"])
   /\ UNCHANGED <<msg, disk, pending, phase, obs>>
 
+\* abrupt stop between acceptance and the first attempt (at most once: mem is only set by Accept)
+CrashRestart ==
+  /\ phase = "queued" /\ mem.k = "rec"
+  /\ mem' = None
+  /\ hist' = H([a |-> "Crash"])
+  /\ UNCHANGED <<msg, disk, pending, phase, steps, restarts, obs>>
+
 Emit ==
   /\ phase \in {"done"} \/ (phase = "queued" /\ steps = MaxSteps)
   /\ phase' = "end"
@@ -135,7 +160,7 @@ Emit ==
   /\ UNCHANGED <<msg, mem, disk, pending, steps, restarts, obs>>
 
 Next ==
-  \/ Accept \/ AcceptRefused \/ Restart \/ Emit
+  \/ Accept \/ AcceptRefused \/ Restart \/ CrashRestart \/ Emit
   \/ \E D \in SUBSET Rcpts : \E P \in SUBSET (Rcpts \ D) : Attempt(D, P)
   \/ (phase = "end" /\ ~Gen /\ UNCHANGED vars)
 
